@@ -444,6 +444,9 @@ class MinMaxAggregator:
         if agg.atom.left_guard is None:
             return [rule]  # aggregate without guards: nothing to translate
 
+        if any(map(lambda elem: not elem.terms, agg.atom.elements)):
+            return [rule]  # element with an empty tuple: no value to build a chain from
+
         if not agg.atom.right_guard:
             lt = agg.atom.left_guard.comparison in (ComparisonOperator.LessThan, ComparisonOperator.LessEqual)
             gt = agg.atom.left_guard.comparison in (ComparisonOperator.GreaterThan, ComparisonOperator.GreaterEqual)
